@@ -479,4 +479,42 @@ example : OpsIn (NotBlock hDoc (clone hDoc 1 true true).1) [.rename 3 "z", .setV
 /-- the specified export tree of `hDoc` for the Property exists -/
 example : (chainSpec hDoc 2).isSome = true := by decide
 
+/-! ### Ids repeated along the path (round 4)
+
+`export_leaf_chain` holds for every well-formed store; ids are a field like any other. The witness below
+shows that its hypotheses are met by a store in which the exported Section carries the id of one of its
+ancestors - what `clone(keep_id=True)` followed by `append` builds - and spells out the result. -/
+
+/-- A snapshot of a Section kept inside that Section: `rec.clone(keep_id=True)`, renamed, appended to
+    `rec`. Objects: 0 Document, 1 Section "rec", 2 its Property, 3 the copy "snapshot" (child of 1), 4 its
+    Property. -/
+def hNest : H := run empty
+  [.newObj .doc "" ["me"] [], .newObj .sec "rec" ["t"] [], .append 0 1,
+   .newObj .prop "rate" ["int"] [], .append 1 2,
+   .clone 1 true true, .rename 3 "snapshot", .append 1 3]
+
+/-- The chain law of `export_leaf` does not depend on the ids being distinct: on `hNest` the exported
+    Section 3 carries the id of its ancestor 1 (and its Property the id of the ancestor's Property), a store
+    the library builds itself with `clone(keep_id=True)`. It is well-formed, the walk from the Property 4
+    starts at 3 and passes [3, 1, 0], the export succeeds, the result is the tree `chainSpec` prescribes
+    (`export_leaf_chain`), and that tree is not cut at the ancestor with the id of the leaf: Document copy 9
+    holds exactly the copy 7 of "rec" with its Property, which holds exactly the copy 5 of "snapshot" with its
+    Property and no Section; 5 and 7 carry the same id. -/
+theorem export_leaf_chain_repeated_ids :
+    WF hNest ∧ (hNest.node 3).id = (hNest.node 1).id ∧ (hNest.node 4).id = (hNest.node 2).id ∧
+    exportStart hNest 4 = some 3 ∧ chainUp hNest (fuelOf hNest) 3 = some [3, 1, 0] ∧
+    (exportLeaf hNest 4).2 = .ok 9 ∧
+    (∃ t, chainSpec hNest 4 = some t ∧ ∀ n, fuelOf hNest ≤ n → idTree (exportLeaf hNest 4).1 n 9 = t) ∧
+    (((exportLeaf hNest 4).1.node 9).secs, ((exportLeaf hNest 4).1.node 7).secs, ((exportLeaf hNest 4).1.node 5).secs)
+      = ([7], [5], []) ∧
+    (((exportLeaf hNest 4).1.node 7).props, ((exportLeaf hNest 4).1.node 5).props) = ([8], [6]) ∧
+    ((exportLeaf hNest 4).1.node 5).id = ((exportLeaf hNest 4).1.node 7).id ∧
+    ((exportLeaf hNest 4).1.node 5).name = "snapshot" ∧ ((exportLeaf hNest 4).1.node 7).name = "rec" := by
+  refine ⟨run_empty_wf _, by decide, by decide, by decide, by decide, by decide, ?_, by decide, by decide,
+    by decide, by decide, by decide⟩
+  have he : exportLeaf hNest 4 = ((exportLeaf hNest 4).1, .ok 9) := by
+    have : (exportLeaf hNest 4).2 = .ok 9 := by decide
+    exact Prod.ext rfl this
+  exact export_leaf_chain (run_empty_wf _) (by decide) (by decide : exportStart hNest 4 = some 3) he
+
 end C11
